@@ -24,7 +24,17 @@ pub struct ExecutionContext<'a, F> {
     /// Operation-specific execution state storage.
     /// Each operation type can store its own state (e.g., chaining state, row records).
     op_states: &'a mut OpStateMap,
+    /// Verification hook (feature `p3r-verif`): see [`VerifFreeStateTamper`].
+    #[cfg(feature = "p3r-verif")]
+    verif_free_state_tamper: Option<&'a VerifFreeStateTamper<F>>,
 }
+
+/// Verification hook (feature `p3r-verif`): callback over the part of a permutation's input state
+/// that is *not* read from the witness (zero-initialised or inherited from the previous row of the
+/// chain), invoked before the witness-fed limbs are written over it. It lets a simulated faulty
+/// witness generator choose every value the honest generator derives privately.
+#[cfg(feature = "p3r-verif")]
+pub type VerifFreeStateTamper<F> = Box<dyn Fn(NonPrimitiveOpId, &mut [F]) + Send + Sync>;
 
 impl<'a, F: PrimeCharacteristicRing + Eq> ExecutionContext<'a, F> {
     /// Create a new execution context
@@ -41,6 +51,24 @@ impl<'a, F: PrimeCharacteristicRing + Eq> ExecutionContext<'a, F> {
             enabled_ops,
             operation_id,
             op_states,
+            #[cfg(feature = "p3r-verif")]
+            verif_free_state_tamper: None,
+        }
+    }
+
+    /// Verification hook (feature `p3r-verif`): attach the free-state callback.
+    #[cfg(feature = "p3r-verif")]
+    #[must_use]
+    pub fn with_verif_free_state_tamper(mut self, t: Option<&'a VerifFreeStateTamper<F>>) -> Self {
+        self.verif_free_state_tamper = t;
+        self
+    }
+
+    /// Verification hook (feature `p3r-verif`): let the callback, if any, alter `state`.
+    #[cfg(feature = "p3r-verif")]
+    pub fn verif_tamper_free_state(&self, state: &mut [F]) {
+        if let Some(t) = self.verif_free_state_tamper {
+            t(self.operation_id, state);
         }
     }
 
